@@ -30,7 +30,7 @@ var c20hist = map[string]map[string]int{}
 // Generated cases are buffered per class and written interleaved (proportionally), so that
 // the driver's bounded list of reported failures always holds failures of every class.
 var c20class = -1 // -1: write directly (replay)
-var c20buf [3][]string
+var c20buf [4][]string
 
 func c20emit(v Sx) {
 	if c20class < 0 {
@@ -43,10 +43,10 @@ func c20emit(v Sx) {
 }
 
 func c20flush() {
-	var pos [3]int
+	var pos [4]int
 	for {
 		best, bestFrac := -1, 2.0
-		for k := 0; k < 3; k++ {
+		for k := 0; k < 4; k++ {
 			if pos[k] < len(c20buf[k]) {
 				if f := float64(pos[k]) / float64(len(c20buf[k])); f < bestFrac {
 					best, bestFrac = k, f
@@ -266,6 +266,170 @@ func c20note(in c20in, class string) {
 	c20count("wrap", fmt.Sprint(in.wrap))
 }
 
+// ---- stateful sequences on ONE image object: (seq W H (ops) (obs)) ----
+type c20op struct {
+	sx  []Sx
+	run func(img *mono.MonoImg) Sx
+}
+
+func c20oFont(n int, p bool) c20op {
+	return c20op{L(Sym("font"), n, p), func(i *mono.MonoImg) Sx { i.SetFont(n, p); return 0 }}
+}
+func c20oTsz(h, v int) c20op {
+	return c20op{L(Sym("tsz"), h, v), func(i *mono.MonoImg) Sx { i.SetTextSize(h, v); return 0 }}
+}
+func c20oSpc(sp int) c20op {
+	return c20op{L(Sym("spc"), sp), func(i *mono.MonoImg) Sx { i.SetCharSpacingCompensation(byte(sp)); return 0 }}
+}
+func c20oCur(x, y int) c20op {
+	return c20op{L(Sym("cur"), x, y), func(i *mono.MonoImg) Sx { i.SetCursor(x, y); return 0 }}
+}
+func c20oWrap(w bool) c20op {
+	return c20op{L(Sym("wrap"), w), func(i *mono.MonoImg) Sx { i.SetTextWrap(w); return 0 }}
+}
+func c20oClr() c20op {
+	return c20op{L(Sym("clr")), func(i *mono.MonoImg) Sx {
+		i.FillRect(0, 0, i.Width, i.Height, false)
+		return append([]byte{}, i.GetImgSlice()...)
+	}}
+}
+func c20oSw(str []byte) c20op {
+	return c20op{L(Sym("sw"), str), func(i *mono.MonoImg) Sx { return i.StrWidth(string(str)) }}
+}
+func c20oLh() c20op {
+	return c20op{L(Sym("lh")), func(i *mono.MonoImg) Sx { return int(i.LineHeight()) }}
+}
+func c20oTxt(str []byte) c20op {
+	return c20op{L(Sym("txt"), str), func(i *mono.MonoImg) Sx {
+		w, h := i.StrWidth(string(str)), int(i.LineHeight())
+		i.RenderText(string(str))
+		return L(w, h, append([]byte{}, i.GetImgSlice()...))
+	}}
+}
+
+func c20seq(W, H int, ops []c20op) {
+	img := &mono.MonoImg{}
+	img.NewImage(W, H)
+	img.SetTextColor(true)
+	var opsx, obs []Sx
+	for _, o := range ops {
+		opsx = append(opsx, Sx(o.sx))
+		c20count("seq_op", string(o.sx[0].(Sym)))
+		func() {
+			defer func() {
+				if r := recover(); r != nil {
+					obs = append(obs, Sx(Sym("panic")))
+				}
+			}()
+			obs = append(obs, o.run(img))
+		}()
+	}
+	c20emit(L(Sym("seq"), W, H, opsx, obs))
+}
+
+// strings for stateful cases: no line feed (also not through rune truncation)
+func c20plainString(rng *Rng, n int) []byte {
+	b := make([]byte, n)
+	for i := range b {
+		switch rng.Intn(12) {
+		case 0:
+			b[i] = 13
+		case 1:
+			b[i] = byte(rng.Pick([]int{0, 31, 127, 128, 200, 255}))
+		default:
+			b[i] = byte(rng.Range(32, 126))
+		}
+	}
+	return b
+}
+
+func genC20seq(thorough bool, rng *Rng) {
+	const W, H = 400, 48
+	strs := [][]byte{[]byte("Hello"), []byte("Cam 12"), []byte("WW"), []byte("il"), []byte("A\rB")}
+	// 1. measure - change ONE setting - measure/render the same string again, for every kind of
+	//    setting, every font/mode, sizes, and every ordered pair of spacings 0-3
+	for f := 0; f < 3; f++ {
+		for _, p := range []bool{true, false} {
+			for _, sz := range [][2]int{{1, 1}, {2, 2}, {3, 1}, {1, 3}} {
+				for a := 0; a < 4; a++ {
+					for b := 0; b < 4; b++ {
+						if a == b || (!thorough && (a+b+f+sz[0])%2 == 1) {
+							continue
+						}
+						str := strs[(a*4+b+f)%len(strs)]
+						c20seq(W, H, []c20op{c20oWrap(false), c20oFont(f, p), c20oTsz(sz[0], sz[1]), c20oSpc(a),
+							c20oSw(str), c20oLh(), c20oSpc(b), c20oSw(str), c20oCur(6, 4), c20oTxt(str)})
+					}
+				}
+				str := strs[(f+sz[0])%len(strs)]
+				other := strs[(f+sz[0]+1)%len(strs)]
+				f2, p2 := (f+1)%3, !p
+				// size, font, mode, wrap changed between two measurements of the same string; a different
+				// string measured in between; rendering twice from explicit cursors
+				c20seq(W, H, []c20op{c20oWrap(false), c20oFont(f, p), c20oTsz(sz[0], sz[1]), c20oSpc(1), c20oSw(str),
+					c20oTsz(sz[1]+1, sz[0]), c20oSw(str), c20oLh(), c20oCur(3, 2), c20oTxt(str)})
+				c20seq(W, H, []c20op{c20oWrap(false), c20oFont(f, p), c20oTsz(sz[0], sz[1]), c20oSpc(2), c20oSw(str),
+					c20oFont(f2, p), c20oSw(str), c20oCur(0, 0), c20oTxt(str), c20oFont(f, p2), c20oSw(str), c20oClr(), c20oCur(9, 7), c20oTxt(str)})
+				c20seq(W, H, []c20op{c20oFont(f, p), c20oTsz(sz[0], sz[1]), c20oSpc(0), c20oSw(str), c20oWrap(false), c20oSpc(3),
+					c20oSw(other), c20oSw(str), c20oCur(5, 5), c20oTxt(str), c20oClr(), c20oSpc(1), c20oCur(5, 5), c20oTxt(other), c20oCur(2, 30 - 8*minInt(sz[1], 3)), c20oTxt(str)})
+			}
+		}
+	}
+	// 2. random interleavings
+	n := 700
+	if thorough {
+		n = 12000
+	}
+	for i := 0; i < n; i++ {
+		pool := [][]byte{c20plainString(rng, rng.Range(2, 8)), c20plainString(rng, rng.Range(0, 6)), strs[rng.Intn(len(strs))]}
+		ops := []c20op{c20oWrap(rng.Intn(8) == 0)}
+		v := 1
+		ln := rng.Range(6, 18)
+		for k := 0; k < ln; k++ {
+			str := pool[rng.Intn(len(pool))]
+			switch rng.Intn(20) {
+			case 0, 1, 2, 3, 4:
+				ops = append(ops, c20oSw(str))
+			case 5, 6, 7, 8:
+				ops = append(ops, c20oCur(rng.Range(0, 20), rng.Range(0, maxInt(0, H-8*v))), c20oTxt(str))
+			case 9:
+				ops = append(ops, c20oTxt(str)) // from wherever the cursor is: model comparison only
+			case 10, 11, 12:
+				ops = append(ops, c20oSpc(rng.Pick([]int{0, 1, 2, 3, 3, 7})))
+			case 13, 14:
+				h := rng.Range(1, 3)
+				v = rng.Range(1, 3)
+				if rng.Intn(6) == 0 {
+					h, v = rng.Range(-1, 4), rng.Range(0, 4)
+					if v < 1 {
+						v = maxInt(h, 1)
+					}
+				}
+				ops = append(ops, c20oTsz(h, v))
+				if v > 4 {
+					v = 4
+				}
+			case 15, 16:
+				ops = append(ops, c20oFont(rng.Range(0, 3), rng.Bool()))
+			case 17:
+				ops = append(ops, c20oLh())
+			case 18:
+				ops = append(ops, c20oWrap(rng.Intn(4) == 0))
+			default:
+				ops = append(ops, c20oClr())
+			}
+		}
+		c20seq(W, H, ops)
+	}
+}
+
+func minInt(a, b int) int {
+	if a < b {
+		return a
+	}
+	return b
+}
+
 func genC20(tier string, rng *Rng) {
 	thorough := tier == "thorough"
 	// 1. every single character x fonts x modes x spacing 0-3 x sizes 1-4 x 1-4, two cursors each
@@ -352,12 +516,43 @@ func genC20(tier string, rng *Rng) {
 		c20note(in, class)
 		c20run(in)
 	}
+	// 4. stateful sequences on one image object
+	c20class = 3
+	genC20seq(thorough, rng)
 	c20flush()
 	meta(map[string]interface{}{"property": "C20", "input_histograms": c20hist})
 }
 
 func replayC20(line string) {
 	n := parseSexp(line)
+	if n != nil && n.IsList && len(n.Kids) >= 4 && n.Kids[0].Atom == "seq" {
+		var ops []c20op
+		for _, o := range n.Kids[3].Kids {
+			k := o.Kids
+			switch k[0].Atom {
+			case "font":
+				ops = append(ops, c20oFont(k[1].Int(), k[2].Bool()))
+			case "tsz":
+				ops = append(ops, c20oTsz(k[1].Int(), k[2].Int()))
+			case "spc":
+				ops = append(ops, c20oSpc(k[1].Int()))
+			case "cur":
+				ops = append(ops, c20oCur(k[1].Int(), k[2].Int()))
+			case "wrap":
+				ops = append(ops, c20oWrap(k[1].Bool()))
+			case "clr":
+				ops = append(ops, c20oClr())
+			case "sw":
+				ops = append(ops, c20oSw(k[1].Bytes()))
+			case "lh":
+				ops = append(ops, c20oLh())
+			case "txt":
+				ops = append(ops, c20oTxt(k[1].Bytes()))
+			}
+		}
+		c20seq(n.Kids[1].Int(), n.Kids[2].Int(), ops)
+		return
+	}
 	if n == nil || !n.IsList || len(n.Kids) < 14 || n.Kids[0].Atom != "txt" {
 		return
 	}
